@@ -6,7 +6,7 @@
 //! ops (one per line, keys/values hex, `-` = empty):
 //!   put K V | del K | batch K=V,K=~,...   (~ = delete) | get K | getall K,K,...
 //!   scan LO HI PROG     bounds: U | I<hex> | E<hex> ; PROG: comma list of F L N P S<hex>
-//!   flush | compact | peek | state | dump | ls | mani | verify | sleep MS
+//!   flush | compact | select | perform IDX | peek | state | dump | ls | mani | verify | sleep MS
 //! The memtable thread is the real one (flush = verif_request_flush + verif_wait_flush);
 //! compaction is single-stepped through LsmTree::verif_compaction_step.
 use std::collections::HashSet;
@@ -150,6 +150,8 @@ fn main() {
         });
     }
     let mut seen = HashSet::new();
+    // compactions selected (left in the ongoing list) and not yet performed
+    let pending: std::sync::Mutex<Vec<Option<lsmtk::VerifPending>>> = std::sync::Mutex::new(vec![]);
     let stdin = std::io::stdin();
     for line in stdin.lock().lines() {
         let line = line.unwrap();
@@ -221,6 +223,25 @@ fn main() {
                     Ok(Some(c)) => format!("COMPACT {} {} {} {} {} {}", c.lower_level, c.upper_level, hx0(&c.first_key), hx0(&c.last_key), c.size, c.inputs.join(",")),
                     Err(e) => format!("COMPACT err {}", err_class(&e)),
                 },
+                "select" => match kvs.verif_tree().verif_compaction_select() {
+                    None => "SELECT none".into(),
+                    Some((c, p)) => {
+                        let mut pend = pending.lock().unwrap();
+                        pend.push(Some(p));
+                        format!("SELECT {} {} {} {} {} {} {}", pend.len() - 1, c.lower_level, c.upper_level, hx0(&c.first_key), hx0(&c.last_key), c.size, c.inputs.join(","))
+                    }
+                },
+                "perform" => {
+                    let idx: usize = t[1].parse().unwrap();
+                    let p = pending.lock().unwrap().get_mut(idx).and_then(|x| x.take());
+                    match p {
+                        None => "PERFORM err no-such-pending".into(),
+                        Some(p) => match kvs.verif_tree().verif_compaction_perform(p) {
+                            Ok(()) => "PERFORM ok".into(),
+                            Err(e) => format!("PERFORM err {}", err_class(&e)),
+                        },
+                    }
+                }
                 "peek" => match kvs.verif_tree().verif_peek_compaction() {
                     None => "PEEK none".into(),
                     Some(c) => format!("PEEK {} {} {} {} {} {}", c.lower_level, c.upper_level, hx0(&c.first_key), hx0(&c.last_key), c.size, c.inputs.join(",")),
